@@ -383,6 +383,13 @@ func init() {
 		ex.havocMemBase(st, types.Typ[types.Uint8], base)
 		return Val{T: c.results().At(0).Type(), L: []string{base, bvLit(0, 64), bvLit(64, 64), bvLit(64, 64)}}
 	}
+	s["github.com/mycoria/crop.MakeEd25519KeyPair"] = func(ex *Exec, fr *Frame, st *State, c *callCtx) Val {
+		// derives the public key with priv.Public() when none is given: that slices priv[32:]
+		priv, pub := c.args[0], c.args[1]
+		ex.oblige(fr, st, "pre", "keypair-privkey-size", or(not(eq(pub.L[2], bvLit(0, 64))), or(eq(priv.L[2], bvLit(0, 64)), app("bvsge", priv.L[2], bvLit(32, 64)))), c.pos,
+			"crop.MakeEd25519KeyPair panics on a private key shorter than 32 bytes when no public key is given: "+ex.srcLine(c.pos))
+		return ex.externalCall(fr, st, c.fn, c.args, c.argVals, c.pos)
+	}
 	s["crypto/ed25519.Verify"] = func(ex *Exec, fr *Frame, st *State, c *callCtx) Val {
 		ex.oblige(fr, st, "pre", "ed25519-pubkey-size", eq(c.args[0].L[2], bvLit(32, 64)), c.pos, "ed25519.Verify panics unless len(pub)==32: "+ex.srcLine(c.pos))
 		ex.cryptoEvent(fr, st, "ed25519.Verify", c)
